@@ -52,7 +52,7 @@ def rule_wlen(rep, F, inv, aud):
                 rep.allow("W-len")
                 rep.inst("W-len", 1, nontrivial=False)
                 continue
-            rep.violation("W-len", "%s|underivable" % k, "writer %s is outside the fragment E2 can interpret (%s): its length discipline is undecided - extend the engine or audit it in tables/e2_audited.json" % (k, r.get("why")), {"why": r.get("why")})
+            rep.lost("writer %s is outside the fragment E2 can interpret (%s): its length discipline is undecided (not a verdict) - extend the engine or audit it in tables/e2_audited.json" % (k, r.get("why")))
             continue
         derivable += 1
         runs += r["runs"]
